@@ -340,6 +340,76 @@ def build(seed, n):
             (lambda ans, new=float(q._log_kappa), nst=nst, st=st, T=T: None if _close(new, _rat(ans)) else
              'vMF update at nsteps=%d start=%d T=%d: real log kappa %r, translated %r' % (nst, st, T, new, _rat(ans))))
 
+
+    # ---- the annealer's ladder recursion: real DynamicalAnnealer.__call__ inside real runs, recorded
+    from epsie.chain.ptchain import DynamicalAnnealer
+    for _ in range(max(2, n // 4)):
+        nt = rng.choice([3, 4, 5])
+        betas = sorted(rng.sample([i / 16.0 for i in range(1, 16)], nt - 1) + [1.0], reverse=True)
+        ann = DynamicalAnnealer(tau=rng.choice([5, 50]), nu=rng.choice([0.5, 2, 10]), Tmax_prior=rng.random() < 0.5)
+        smp = ParallelTemperedSampler(['x'], model, 1, betas=numpy.array(betas), swap_interval=1,
+                                      proposals=[P.Normal(['x'])], adaptive_annealer=ann, seed=rng.randrange(1, 10 ** 6))
+        smp.start_position = {'x': numpy.array([[rng.uniform(-1, 1)] for _ in range(nt)])}
+        calls = []
+        ocall = DynamicalAnnealer.__call__
+
+        def rec(self, chain, calls=calls, ocall=ocall):
+            before = [float(b) for b in chain.betas]
+            ocall(self, chain)
+            calls.append((before, [float(v) for v in self._S], [float(b) for b in chain.betas],
+                          [float(l.beta) for l in chain.chains]))
+        DynamicalAnnealer.__call__ = rec
+        try:
+            smp.run(3)
+        finally:
+            DynamicalAnnealer.__call__ = ocall
+        for before, S, after, levels in calls:
+            es = [math.exp(v) for v in S]
+
+            def j(ans, after=after, levels=levels, nt=nt):
+                t = ans.split()
+                got = [_rat(v) for v in t[0].split(',')]
+                if len(got) != len(after) or not all(_close(a, b) for a, b in zip(got, after)):
+                    return 'annealed ladder: real %s, translated %s' % (after, got)
+                wl = [] if t[1] == '-' else [(int(e.split(':')[0]), _rat(e.split(':')[1])) for e in t[1].split(',')]
+                if [i for i, _ in wl] != list(range(1, nt - 1)) or not all(_close(levels[i], v) for i, v in wl):
+                    return 'levels written by the annealer: real level betas %s, translated write log %s' % (levels, wl)
+                if not all(_close(levels[i], after[i]) for i in range(nt)):
+                    return 'real levels %s differ from the real ladder %s' % (levels, after)
+                return None
+            add('annealLoop %d %s %s' % (nt, frl(before), frl(es)), j)
+
+    # ---- the reported density of a transdimensional move: real NestedTransdimensional._logpdf
+    K = 4
+    names = ['a%d' % i for i in range(1, K + 1)]
+    births = [P.UniformBirth([nm], {nm: (0., 4.)}) for nm in names]
+    inner = [P.Normal([nm], cov=[rng.choice([0.25, 1.0])]) if i % 2 else P.BoundedNormal([nm], {nm: (0., 4.)}, cov=[0.5])
+             for i, nm in enumerate(names)]
+    mp = P.BoundedDiscrete(['k'], boundaries={'k': (0, K)}, successive={'k': True})
+    ntp = P.NestedTransdimensional(names + ['k'], mp, inner, births)
+    for _ in range(n):
+        cur = [rng.random() < 0.5 for _ in range(K)]
+        prop = list(cur)
+        mv = rng.choice(['same', 'birth', 'death'])
+        cand = [i for i in range(K) if (not cur[i] if mv == 'birth' else cur[i])]
+        if mv != 'same' and cand:
+            for i in rng.sample(cand, rng.randint(1, len(cand))):
+                prop[i] = not prop[i]
+        gx = {nm: (rng.uniform(0.5, 3.5) if cur[i] else numpy.nan) for i, nm in enumerate(names)}
+        xi = {nm: (rng.uniform(0.5, 3.5) if prop[i] else numpy.nan) for i, nm in enumerate(names)}
+        gx['k'], xi['k'] = sum(cur), sum(prop)
+        gx['_state'], xi['_state'] = numpy.array(cur), numpy.array(prop)
+        idx = float(mp.logpdf({'k': xi['k']}, {'k': gx['k']}))
+        bl = [float(inner[i].birth_distribution.logpdf({nm: xi[nm]})) if prop[i] else 0.0 for i, nm in enumerate(names)]
+        im = [float(inner[i].logpdf({nm: xi[nm]}, {nm: gx[nm]})) if (cur[i] and prop[i]) else 0.0 for i, nm in enumerate(names)]
+        real = float(ntp._logpdf(xi, gx))
+        if not all(math.isfinite(v) for v in [idx] + bl + im + [real]):
+            continue
+        add('tdLogpdf %d %s %d %d %s %s %s %s' % (K, fr(idx), xi['k'], gx['k'], ','.join('T' if b else 'F' for b in cur),
+                                               ','.join('T' if b else 'F' for b in prop), frl(bl), frl(im)),
+            (lambda ans, real=real, cur=cur, prop=prop: None if _close(real, _rat(ans), 1e-10) else
+             'NestedTransdimensional._logpdf for states %s -> %s: real %r, translated %r' % (cur, prop, real, _rat(ans))))
+
     # ---- Chain.state keys and the keys set_state reads
     ch = Chain(['x'], model, [P.Normal(['x'])], bit_generator=5)
     ch.start_position = {'x': 0.5}
@@ -392,7 +462,7 @@ KERNEL_PROPERTY = {
     'nsteps': 'C15', 'callJump': 'C15', 'jump': 'C15', 'logpdf': 'C15', 'update': 'C15', 'resetStart': 'C19',
     'chainLen': 'C08', 'getitem': 'C08', 'runGrowth': 'C06', 'sweepDue': 'C09', 'rowsViewed': 'C09',
     'sweepRow': 'C09', 'accept': 'C01', 'sweepLoop': 'C03', 'veitch': 'C13', 'vmf': 'C13',
-    'stateKeys': 'C05', 'stateReads': 'C05'}
+    'stateKeys': 'C05', 'stateReads': 'C05', 'annealLoop': 'C17', 'tdLogpdf': 'C11'}
 
 
 def run(seed, n, prop=None):
